@@ -137,9 +137,21 @@ def run(ctx):
     nprog = ctx.budget(120, 2500)
     lines, meta = [], []
     problems = []
-    for i in range(nprog):
-        P = spine.gen_program(rng)
-        src = spine.to_src(P)
+    nbig = ctx.budget(25, 400)
+    import glob
+    import os
+    from lib import VERIF
+    corpus = [open(f).read() for f in sorted(glob.glob(os.path.join(VERIF, "corpus", "C10", "*.pl")))]
+    for i in range(-len(corpus), nprog + nbig):
+        if i < 0:
+            P = None   # pinned corpus programs run first
+        elif i < nprog:
+            P = spine.gen_program(rng)
+        else:
+            # larger ground programs (3 constants, more probabilistic rules): beyond what world enumeration can check,
+            # but the validator / entailment / count checks are polynomial
+            P = spine.gen_program(rng, big=True)
+        src = corpus[i + len(corpus)] if P is None else spine.to_src(P)
         st = spine.run_pipeline(src, propagate_evidence=rng.random() < 0.3, keep_nnf=True, timeout=20)
         if st.error and st.error[0] in ("parse", "ground", "cycles", "clark"):
             ctx.count("skipped:" + st.error[1])
@@ -209,7 +221,9 @@ def run(ctx):
                     nroot = len(mm.group(3).split())
                     count = int(mm.group(4)) * (2 ** (nvars - nroot))
                     if mm.group(1) == "bad":
-                        problems.append((src, "dsharp output rejected by the validator: %s" % mm.group(2)))
+                        why = re.sub(r"^\s*\d+\s*", "", mm.group(2)).strip().strip('"')
+                        problems.append((src, "dsharp output rejected by the validator: %s (line %s; circuit count %d, CNF count %d)" % (
+                            why, mm.group(2).split()[0], count, cnt), why))
                     elif mm.group(1) == "undecided":
                         ctx.count("validator-undecided")
                     elif count != cnt:
@@ -235,14 +249,21 @@ def run(ctx):
             if not ok and first_diff is None:
                 first_diff = (op, src, str(out)[:1200], str(exp)[:1200])
     ctx.extra["validator_verdicts"] = verdicts
-    if problems:
-        src, what = problems[0]
-        ctx.fail("%s (program: %s)" % (what, src[:500]), {"src": src, "what": what}, {"kind": "ddnnf", "what": what.split(":")[0]})
+    seen = set()
+    for pr in problems:
+        src, what = pr[0], pr[1]
+        why = pr[2] if len(pr) > 2 else ""
+        sig = {"kind": "ddnnf", "what": what.split(":")[0], "why": why}
+        if (sig["what"], why) in seen:
+            continue
+        seen.add((sig["what"], why))
+        ctx.fail("%s (program: %s)" % (what, src[:700].replace("\n", " ")), {"src": src, "what": what}, sig)
     if first_diff:
         op, src, got, exp = first_diff
         ctx.disagree("%s model vs implementation" % op, "program %s | model %s | implementation %s" % (src[:400], got, exp))
     ctx.obligation("correspondence: loader/evaluator model = implementation on %d artefacts" % len(meta),
                    first_diff is None and drv is not None, "" if first_diff is None else first_diff[0])
-    ctx.obligation("validator accepted every dsharp output (%s)" % verdicts, verdicts.get("bad", 0) == 0 and verdicts.get("undecided", 0) == 0,
-                   str(verdicts))
+    # rejected circuits are concrete failures (handled above, possibly as known findings); an UNDECIDED verdict means
+    # the validator's syntactic conditions no longer cover what dsharp emits: the property is then not shown
+    ctx.obligation("validator decided every dsharp output (%s)" % verdicts, verdicts.get("undecided", 0) == 0, str(verdicts))
     return ctx.finish("translation_validation")
